@@ -46,7 +46,10 @@ Definition default_order (nb : nat) (m : emodel) (bp : bool) (vars : option (lis
   (ev : list (var * nat)) (virt : option (list (var * list Qc))) : list var :=
   let m1 := match virt with Some v => augment m v | None => m end in
   let ev1 := match virt with Some v => ev ++ virt_evidence nb v | None => ev end in
-  let Q := match vars with Some Q => Q | None => m_nodes nb m1 end in
+  let Q := match vars with
+           | Some Q => Q
+           | None => filter (fun v => negb (memv v (map fst ev1))) (m_nodes nb m1)
+           end in
   let mq := if bp then prune nb m1 Q ev1 else m1 in
   filter (fun v => negb (memv v Q) && negb (memv v (map fst ev1))) (m_nodes nb mq).
 
@@ -66,12 +69,13 @@ Fixpoint play (nb : nat) (cs : list nat) (m : emodel) (h : list sx) : option emo
   match h with
   | [] => Some m
   | s :: r => match dec_question nb m s with
-              | Some q => play nb cs (snd (ask nb cs m q)) r
+              | Some q => play nb cs (snd (ask_e nb cs m q)) r
               | None => None
               end
   end.
 
-(* [nb cards base history question] -> [scope; table; nodes of self.model afterwards; nodes before] *)
+(* [nb cards base history question] -> [scope; table; nodes of self.model afterwards; nodes before];
+   error 3 = the final question is rejected (questions of the history may be rejected too: no-ops) *)
 Definition run_c16_history (s : sx) : sx :=
   match s with
   | SL [snb; scs; sfs; SL sh; sq] =>
@@ -81,9 +85,12 @@ Definition run_c16_history (s : sx) : sx :=
           | Some m =>
               match dec_question nb m sq with
               | Some q =>
-                  let r := ask nb cs m q in
-                  sx_ok (SL [ of_list of_nat (fst (fst r)); of_list of_Qc (snd (fst r));
-                              of_list of_nat (m_nodes nb (snd r)); of_list of_nat (m_nodes nb m) ])
+                  match ask_e nb cs m q with
+                  | (Some r, m') =>
+                      sx_ok (SL [ of_list of_nat (fst r); of_list of_Qc (snd r);
+                                  of_list of_nat (m_nodes nb m'); of_list of_nat (m_nodes nb m) ])
+                  | (None, _) => sx_err 3
+                  end
               | None => bad_request
               end
           | None => bad_request
